@@ -254,6 +254,9 @@ def main():
                 eq = m.call(PT + 'Equal', [A, B])
                 ctx.check(tm.eq(eq, tm.ite(tm.eq(k2, k, W), 1, 0, 64), 64), 'bv:Equal-iff-same-group-element')
                 ctx.check(tm.eq(m.call(PT + 'IsIdentity', [A]), 1 if k == 0 else 0, 64), 'bv:IsIdentity')
+                # every predicate is a function of the abstract point -- the identity included, whose representatives are (0 : c : 0)
+                ya, yb = m.call(PT + 'IsYOdd', [A]), m.call(PT + 'IsYOdd', [B])
+                ctx.check(tm.implies(tm.eq(k2, k, W), tm.eq(ya, yb, 64)), 'bv:IsYOdd-agrees-on-representatives-of-the-same-point')
                 if k != 0:
                     x, y = toy.mult[k]
                     ctx.check(tm.eq(m.call(PT + 'IsYOdd', [A]), y & 1, 64), 'bv:IsYOdd-depends-only-on-the-point')
@@ -334,4 +337,5 @@ def main():
 
 
 if __name__ == '__main__':
-    main()
+    from .common import run_main
+    run_main(main)
